@@ -24,7 +24,7 @@ import (
 const rtPath = "verif.sim/simrt"
 const syncPath = "verif.sim/simrt/simsync"
 
-type stats struct{ gos, selects, singleSelects, chanops, mapranges, chanranges, syncImports, unhandled int }
+type stats struct{ gos, selects, singleSelects, chanops, mapranges, chanranges, syncImports, unhandled, cancels, closes int }
 
 var st stats
 
@@ -56,7 +56,7 @@ func main() {
 			if strings.HasSuffix(name, "_test.go") {
 				continue
 			}
-			in := &inst{pkg: p, file: f, fset: p.Fset, rel: rel(dir, name)}
+			in := &inst{pkg: p, file: f, fset: p.Fset, rel: rel(dir, name), closeStmts: map[*ast.ExprStmt]bool{}}
 			in.run()
 			var buf bytes.Buffer
 			if err := format.Node(&buf, p.Fset, f); err != nil {
@@ -69,7 +69,7 @@ func main() {
 			}
 		}
 	}
-	fmt.Printf("instr: go=%d select=%d single_select=%d chanop=%d maprange=%d chanrange=%d syncimports=%d unhandled=%d\n", st.gos, st.selects, st.singleSelects, st.chanops, st.mapranges, st.chanranges, st.syncImports, st.unhandled)
+	fmt.Printf("instr: go=%d select=%d single_select=%d chanop=%d maprange=%d chanrange=%d syncimports=%d cancels=%d closes=%d unhandled=%d\n", st.gos, st.selects, st.singleSelects, st.chanops, st.mapranges, st.chanranges, st.syncImports, st.cancels, st.closes, st.unhandled)
 }
 
 func rel(dir, name string) string {
@@ -87,6 +87,7 @@ type inst struct {
 	rel    string
 	n      int
 	needRT bool
+	closeStmts map[*ast.ExprStmt]bool
 }
 
 func (in *inst) tmp(p string) string { in.n++; return fmt.Sprintf("__%s%d", p, in.n) }
@@ -117,6 +118,23 @@ func (in *inst) stmts(src string) []ast.Stmt {
 }
 
 func (in *inst) block(src string) *ast.BlockStmt { return &ast.BlockStmt{List: in.stmts(src)} }
+
+func (in *inst) isCancelFunc(e ast.Expr) bool {
+	t := in.typeOf(e)
+	if t == nil {
+		return false
+	}
+	n, ok := t.(*types.Named)
+	if !ok {
+		if a, isAlias := t.(*types.Alias); isAlias {
+			n, ok = types.Unalias(a).(*types.Named)
+		}
+	}
+	if !ok || n.Obj() == nil || n.Obj().Pkg() == nil {
+		return false
+	}
+	return n.Obj().Pkg().Path() == "context" && n.Obj().Name() == "CancelFunc"
+}
 
 func (in *inst) isConst(e ast.Expr) bool {
 	tv, ok := in.pkg.TypesInfo.Types[e]
@@ -208,6 +226,29 @@ func (in *inst) run() {
 			}
 		case *ast.RangeStmt:
 			in.rangeStmt(c, n)
+		case *ast.CallExpr:
+			// rule 6: a call of a context.CancelFunc closes a channel inside the standard library, where no yield can be
+			// inserted. A goroutine blocked in a real select on that channel and on another one that the same task makes
+			// ready before it parks again would be resumed by the Go runtime with BOTH ready - and the runtime picks the
+			// clause at random. The call is therefore followed by a yield: everything it woke has parked again (at its
+			// post-wake yield) before the caller goes on. The same holds for close(ch) statements.
+			if in.isCancelFunc(n.Fun) && len(n.Args) == 0 {
+				in.needRT = true
+				st.cancels++
+				c.Replace(&ast.CallExpr{Fun: &ast.SelectorExpr{X: ast.NewIdent("simrt"), Sel: ast.NewIdent("Settle")}, Args: []ast.Expr{n.Fun, &ast.BasicLit{Kind: token.STRING, Value: in.site(n)}}})
+			} else if id, ok := n.Fun.(*ast.Ident); ok && id.Name == "close" && len(n.Args) == 1 {
+				if _, isBuiltin := in.pkg.TypesInfo.Uses[id].(*types.Builtin); isBuiltin {
+					if es, ok := c.Parent().(*ast.ExprStmt); ok && es.X == n {
+						// handled when the enclosing statement is visited (post-order: the parent comes next)
+						in.closeStmts[es] = true
+					}
+				}
+			}
+		}
+		if es, ok := c.Node().(*ast.ExprStmt); ok && in.closeStmts[es] && inList(c) {
+			in.needRT = true
+			st.closes++
+			c.InsertAfter(in.stmts("simrt.Yield(" + in.site(es) + ")")[0])
 		}
 		return true
 	})
@@ -448,13 +489,16 @@ func (in *inst) selectStmt(s *ast.SelectStmt, label string) ast.Stmt {
 	}
 	defIdx := strconv.Itoa(len(cls))
 	var src bytes.Buffer
+	// the scheduling point (inside simrt.SelectOrder) comes BEFORE the seeded poll, and nothing yields between the poll and the real blocking
+	// select: a yield in between would let other tasks make two clauses ready, and the real select would then be
+	// entered with both ready and resolved by the Go runtime's random choice
 	src.WriteString(strings.Join(pre, "\n") + "\n__f := -1\n")
 	fmt.Fprintf(&src, "for _, __i := range simrt.SelectOrder(%s, %d) {\nselect {\n%s\ndefault:\n}\nif __f >= 0 { break }\n}\n", site, len(cls), strings.Join(poll, "\n"))
 	if def != nil {
 		fmt.Fprintf(&src, "if __f < 0 { __f = %s }\n", defIdx)
 		sw = append(sw, "default:\n")
 	} else {
-		fmt.Fprintf(&src, "if __f < 0 {\nsimrt.Block(%s)\nselect {\n%s\n}\nsimrt.Woke(%s)\n}\n", site, strings.Join(blocking, "\n"), site)
+		fmt.Fprintf(&src, "if __f < 0 {\nsimrt.MarkBlocked(%s)\nselect {\n%s\n}\nsimrt.Woke(%s)\n}\n", site, strings.Join(blocking, "\n"), site)
 	}
 	fmt.Fprintf(&src, "switch __f {\n%s}\n", strings.Join(sw, ""))
 	list := in.stmts(src.String())
